@@ -39,20 +39,23 @@ ValidParams(t, n) == 1 <= t /\ t <= n /\ n <= 255
 Pick(sh, p) == [i \in 1 .. Len(p) |-> sh[p[i]]]
 CoeffRows(flat, t) == [k \in 1 .. 32 |-> SubSeq(flat, (k - 1) * (t - 1) + 1, k * (t - 1))]
 
+\* (shares are bound through a singleton set so that TLC converts the JSON value once, see Shamir!Weights)
+SplitShareClauses(e, sh) ==
+    LET idx == Indices(sh) IN
+    (IF Distinct(idx) /\ \A i \in DOMAIN idx : idx[i] \in 1 .. 255 THEN {} ELSE {"C10.split-indices"})
+    \cup (IF \A q \in DOMAIN Arr(e.probes) :
+               LET p == Arr(e.probes)[q] IN Len(p) = e.t /\ Distinct(p) => Combine(Pick(sh, p)) = e.secret
+          THEN {} ELSE {"C10.split-shares-reconstruct"})
 SplitClauses(e) ==
     IF ~ValidParams(e.t, e.n)
     THEN (IF e.outcome \in {"ok", "invalid_argument"} THEN {} ELSE {"C10.abnormal-termination"})
     ELSE IF e.outcome # "ok" \/ e.count # e.n THEN {"C10.split-terminates-with-n-shares"}
-    ELSE LET sh == Sh(e.shares) idx == Indices(sh) IN
-         (IF Distinct(idx) /\ \A i \in DOMAIN idx : idx[i] \in 1 .. 255 THEN {} ELSE {"C10.split-indices"})
-         \cup (IF \A q \in DOMAIN Arr(e.probes) :
-                    LET p == Arr(e.probes)[q] IN Len(p) = e.t /\ Distinct(p) => Combine(Pick(sh, p)) = e.secret
-               THEN {} ELSE {"C10.split-shares-reconstruct"})
+    ELSE UNION { SplitShareClauses(e, sh) : sh \in {TLCEval(Sh(e.shares))} }
 DesignApplies(e) == ValidParams(e.t, e.n) /\ e.outcome = "ok" /\ e.count = e.n /\ e.t * e.n <= 1600
 DesignEq(e) == Sh(e.shares) = Split(e.secret, CoeffRows(Arr(e.coeffs), e.t), e.t, e.n)
 
-CombineClauses(e) ==
-    LET sh == Sh(e.shares) k == Len(sh) tc == e.tc
+CombineShareClauses(e, sh) ==
+    LET k == Len(sh) tc == e.tc
         first == IF k >= tc THEN SubSeq(sh, 1, tc) ELSE <<>>
         idx == Indices(first)
     IN (IF e.outcome \in {"value", "invalid_argument"} THEN {} ELSE {"C10.abnormal-termination"})
@@ -62,6 +65,7 @@ CombineClauses(e) ==
         ELSE IF (\E i \in DOMAIN idx : idx[i] = 0) \/ ~e.pristine \/ tc # e.t \/ tc = 0 THEN {}
         ELSE IF e.outcome = "value" THEN (IF e.value = e.secret THEN {} ELSE {"C10.reconstruct-wrong"})
         ELSE IF k = tc /\ e.outcome = "invalid_argument" THEN {"C10.reconstruct-refused"} ELSE {})
+CombineClauses(e) == UNION { CombineShareClauses(e, sh) : sh \in {TLCEval(Sh(e.shares))} }
 
 GfClauses(e) ==
     LET a == e.a IN
